@@ -369,20 +369,15 @@ Proof. exact coalesce_distinct. Qed.
 Print Assumptions C20_fsevents_coalesce_distinct.
 
 (* Full law for batches of several operations, coalesced or not, processed when all operations are
-   done (the oracles answer for the final tree) - stated, NOT proved, and false as it stands: the
-   witnesses are C20_fsevents_batched_refuted and the findings F12a-e. *)
-Definition C20_fsevents_batched_full : Prop :=
-  forall stat_ino walk sub root ops view f,
-  root <> [] -> last_is_sep root = false -> wf_fs f -> ops_ok f ops ->
-  let final := fold_left apply_op ops f in
-  (forall p, stat_ino (abspath root p) = match lookup final p with Some e => Some (e_ino e) | None => None end) ->
-  (forall p, walk (abspath root p) = sub p) -> (forall p, wf_tree (sub p) = true) ->
-  (forall p, Permutation (map (fun x => (snd x, fst x)) (desc [] (sub p))) (below final p)) ->
-  (forall i, mem i view = true -> ino_used f i = true) ->
-  forall natives, natives = batch_natives root f ops \/ natives = coalesce_all (batch_natives root f ops) ->
-  exists out v s es, queue_events stat_ino walk true root view natives = Some (out, v, s) /\
-    out = map (render root) es /\
-    Permutation (replay (view_of f) es) (view_of final).
+   done (the oracles answer for the final tree: os.stat, os.walk covering every directory): for every
+   executable history delivered as one batch, the queued events render some stream that replays to
+   the final tree.  It is FALSE - proved below - which is the Coq form of the findings F12a-e; the
+   law that does hold is C20_fsevents_batch_partial with its hypotheses [batch_ok]. *)
+Definition C20_fsevents_batched_full : Prop := fsevents_batched_full.
+
+Theorem C20_fsevents_batched_full_refuted : ~ C20_fsevents_batched_full.
+Proof. exact fsevents_batched_full_refuted. Qed.
+Print Assumptions C20_fsevents_batched_full_refuted.
 
 (* Non-vacuity of [batch_ok]: touch a; mv b c delivered as one batch. *)
 Example C20_fsevents_batch_nonvacuous :
